@@ -34,6 +34,13 @@ TRUSTED = [
 ASSUMPTIONS = ["defaults are declared where the schema language gives the keyword a meaning (never next to a $ref)",
                "strings contain no tab / newline (the harness prints Gallina terms on tab-separated lines)"]
 
+def regen(ctx):
+    """Props/C10.v runs witnesses through the per-language pass chains: keep coq/Gen/Chains_gen.v in step with the
+    jennies' CompilerPasses() (the translator of checks/c06.py)."""
+    from checks import c06
+    c06.regen(ctx)
+
+
 EVAL_DEFS = [("GO_UNM", "go_unmodelled"), ("PY_UNM", "py_unmodelled"), ("MM_GO", "mm_go"), ("MM_PY", "mm_py"),
              ("MM_FE", "mm_fe"), ("PF_GO", "pf_go"), ("PF_PY", "pf_py"), ("PF_AGREE", "pf_agree"), ("HAS", "has_decl")]
 LOST_DEFS = [("FE", "lost_in_frontend"), ("GOCHAIN", "lost_in_go_chain"), ("PYCHAIN", "lost_in_py_chain"),
@@ -133,7 +140,7 @@ def go_compile_cause(err):
 
 # ---------------------------------------------------------------------- one run
 def new_schemas(ctx, thorough):
-    per_fmt = 400 if thorough else 60
+    per_fmt = 1500 if thorough else 330
     out = []
     k = 0
     for fmt in srcgen.FORMATS:
@@ -346,6 +353,9 @@ def run(ctx, verdict, replay=None, model_ok=True):
                 where = "jenny"
             sig = {"kind": "constant-not-held" if d["kind"] in ("const", "constenum") else "default-not-held", "lang": lang, "fmt": fmt,
                    "dkind": d["kind"], "cause": cls, "lost": where}
+            ft = [f_["t"] for f_ in ctorgen.struct_nodes(by_sid[sid])[o["key"]]["fields"] if f_["name"] == d["field"]][0]
+            if ft["k"] == "float":
+                sig["type"] = ft["w"] + (":number-without-format" if ft.get("nofmt") else "")
             extra = {"object": o["gname"] if lang == "go" else o["pname"], "field": d["field"], "declared": d["value"],
                      "observed": o["go_obs"] if lang == "go" else o["py_obs"]}
         key = json.dumps(sig, sort_keys=True)
